@@ -1148,6 +1148,7 @@ package mpb
 //@   ensures  noframeaftererror@C15: err#1 != nil ==> called("(*pState).render") == at(1, called("(*pState).render"))
 //@   loop 2   ensures asks@C03: returned("(*pState).render", 0) == nil ==> called("(heapManager).state") == iter(called("(heapManager).state")) + 1 && calledWith("(heapManager).state", 1) == update
 //@   ensures  settled@C03: err#1 == nil && s.autoRefresh && returned("(*pState).render", 0) == nil ==> !lastRecvd(update)
+//@   ensures  finalmanual@C03,C13: err#1 == nil && s.manualRC != nil ==> called("(*pState).render") >= at(1, called("(*pState).render")) + 1 // manual refresh: what was accepted or changed after the last requested refresh is still shown
 //@   ensures  finalframe@C03,C13: err#1 == nil && s.autoRefresh ==> called("(*pState).render") >= entry(2, called("(*pState).render")) + 1
 //@   ensures  released: called("(*sync.WaitGroup).Done") == old(called("(*sync.WaitGroup).Done")) + 1
 
